@@ -12,7 +12,9 @@ one-level summaries computed to a fixpoint over all units) plus Engine I (sa/int
   R13.2 variant fields         a pointer field of Node/Type assigned only when constructing kinds K (derived from all stores)
                                is not read under a dominating kind fact that excludes K.
   R13.3 size dispatch          sizes that can reach a dispatcher ending in unreachable(): kinds possible at the call (caller's
-                               guards + typing relation derived from add_type) x size table read from type.c; plus the
+                               guards + typing relation derived from add_type) x size table read from type.c; a helper that hands
+                               `param...->size` on without a guard of its own is judged under the kinds its call sites establish,
+                               and every call site gets the obligation that its dominating guards admit accepted sizes only; plus the
                                keyword dispatch of declspec vs. is_typename's table.
   R13.4 assertions             assert() sites: unreachable by guard facts / value sets, or (struct-return helpers) interpreted
                                on a witness catalogue of aggregates <= 16 bytes.
@@ -67,7 +69,8 @@ one-level summaries computed to a fixpoint over all units) plus Engine I (sa/int
                                is subscripted only with indices that the dominating comparisons place strictly below that count: the guard-fact engine remembers, per path, what it is
                                `<` and `<=` (comparisons with an element count, with a variable that is itself so limited, bounds a callee establishes on every return for what it stores
                                through an out-parameter); an index whose tightest known limit is `<= count` addresses the element one past the allocation.
-  R13.22 printer re-entry     printing a diagnostic terminates: code that the diagnostic printer runs over the reported line and that can itself issue a located diagnostic
+  R13.22 printer re-entry     printing a diagnostic terminates: each function the diagnostic printer runs (call graph) calls no diagnostic function (an obligation of its own per function;
+                               all hold = the printer is never re-entered); code that it runs over the reported line and that can itself issue a located diagnostic
                                (derived from the call graph) reports a position that is not after its cursor (Engine I over every path), is applied only to cursors strictly inside the
                                window it was given, and the printer's window ends at the reported position; else the nested diagnostic meets the same bytes again: unbounded recursion.
   R13.23 assembler accepts    the immediates of the bit-field templates fit a sign-extended 32-bit operand for every width/offset the layout admits (C04 R04.1/R04.2 re-issued):
@@ -287,7 +290,7 @@ def run(P, rep, tier):
                        'must be bounded on both sides (R13.19). Direct self-calls must not re-enter with the same input (R13.20: identical parameters after an effect-free prefix; an unexamined '
                        'fresh object under the kind guard that selected the arm). '
                        'Subscripts of array fields whose element count the owner records (derived from the allocation sites) are compared with the relational bounds the dominating comparisons '
-                       'establish: a tightest limit of `<= count` is an index one past the allocation (R13.21). The recursion diagnostic printer -> column computation -> UTF-8 decoder -> diagnostic is '
+                       'establish: a tightest limit of `<= count` is an index one past the allocation (R13.21). Every function below the diagnostic printer in the call graph is shown to call no diagnostic function; where one does, the recursion diagnostic printer -> column computation -> examining function -> diagnostic is '
                        'proved to make progress: reported position not after the cursor (interpreted on every path), decoder applied strictly inside the window, window ends at the reported position (R13.22). '
                        'The bit-field templates\' immediates are encodable (obligations of C04 re-issued, R13.23). '
                        'Tokens made after tokenizing keep the file identity of their template (obligations of C18 R18.5 re-issued, R13.24). The entry function of the code generator is '
@@ -698,7 +701,9 @@ def _offending(kinds, SZ, accepted):
 
 def r133(W, engs, rep):
     rep.rule('R13.3', 'every size that can reach a size dispatcher ending in unreachable() ("internal error") is in the dispatcher\'s list: the sizes are those of the '
-                      'type kinds still possible at the call under the caller\'s kind guards and the typing relation of add_type', floor=6)
+                      'type kinds still possible at the call under the caller\'s kind guards and the typing relation of add_type; where an extracted helper passes the size of a '
+                      'parameter\'s type on without a kind guard of its own, each of its call sites (all known: unique definition, address not taken) must establish kinds with accepted '
+                      'sizes under the guards that dominate the call, and the helper is judged under the union of what the guarded sites establish', floor=6)
     SZ, uni = size_table(W, engs)
     size_owner = set()
     for u in W.units.values():
@@ -735,6 +740,100 @@ def r133(W, engs, rep):
     notjudged = []
     obs = {}
 
+    # functions whose address is taken have callers the call graph does not show
+    taken = set()
+    for u in W.units.values():
+        for g, fd in u.functions.items():
+            direct_callee = set(id(c.inner[0].strip_all()) for c in fd.calls() if c.inner)
+            for n in fd.walk():
+                if n.kind == 'DeclRefExpr' and n.ref_kind == 'FunctionDecl' and id(n) not in direct_callee:
+                    taken.add(n.ref_name)
+        for gv in u.globals.values():
+            for n in gv.walk():
+                if n.kind == 'DeclRefExpr' and n.ref_kind == 'FunctionDecl':
+                    taken.add(n.ref_name)
+    site_engs = {}
+
+    def callers_with(un, f):
+        """engines of the functions that call f (defined in unit un), analysed again with the states at the calls of f kept; None if a call cannot be attributed"""
+        out = []
+        for (un2, g), e2 in sorted(engs.items()):
+            nodes = e2.fd.calls(f)
+            if not nodes:
+                continue
+            if W.resolve(e2.u, f) is not W.units[un]:
+                continue
+            k = (un2, g, f)
+            if k not in site_engs:
+                saved = set(W.record_calls)
+                W.record_calls.add(f)
+                try:
+                    site_engs[k] = L.Engine(W, W.units[un2], g, hooks=e2.hooks).run()
+                finally:
+                    W.record_calls.clear()
+                    W.record_calls.update(saved)
+            out.append((un2, g, site_engs[k], nodes))
+        return out
+
+    def carry(un, f, e, d, callee, q, kinds_here):
+        """the helper f hands `param...->size` to a dispatcher without a kind guard of its own: the guard may be the callers'.  Assume/guarantee: every call site of f
+        gets the obligation that the kinds still possible there (intersected with what f itself knows) have accepted sizes only; f is then judged under the union of the
+        kinds its guarded call sites establish.  Returns that union, or None where the callers cannot be consulted (f is judged in isolation)."""
+        root = L._root(q)
+        pid = root.split('@', 1)[1] if '@' in root else None
+        if pid not in e.param_idx or root in e.assigned_params or len(W.fn_unit.get(f, ())) != 1 or f in taken:
+            return None
+        pi = e.param_idx[pid]
+        suffix = q[len(root):-6]              # between the parameter and ->size
+        fields = set(x for x in suffix.replace('[', '->').split('->') if x) | set(['kind', 'size'])
+        if any(fld in fields for rec, fld, ks, n in e.stores):
+            return None                       # f itself replaces part of the path: the callers' fact is about another object
+        sites = callers_with(un, f)
+        if not sites:
+            return None
+        good = set()
+        found = []
+        for un2, g, e2, nodes in sites:
+            seen = set()
+            for node2, c, Sc, vals in e2.calls:
+                if c != f or pi >= len(vals):
+                    continue
+                seen.add(id(node2))
+                ap = vals[pi].path
+                if g == f and un2 == un and ap == root:
+                    continue                  # the helper hands its own parameter on: inductive
+                if ap is None or (ap + '#rel') in Sc.vs:
+                    kk, kn, shown = set(uni), False, node2.args()[pi].src() + suffix + '->size'
+                else:
+                    kk, kn = _kinds_at(Sc, ap + suffix, uni)
+                    shown = e2.show(ap + suffix + '->size')
+                kk &= kinds_here
+                direct = Sc.vs.get(ap + suffix + '->size') if ap is not None else None
+                if direct and direct[0] == 'in' and all(isinstance(x, int) for x in direct[1]):
+                    off = [('size', str(x)) for x in sorted(direct[1] - d['accepted'])]
+                else:
+                    off = _offending(kk, SZ, d['accepted'])
+                found.append((un2, g, e2, node2, shown, kk, kn, off))
+                if not off:
+                    good |= kk
+            if any(id(n) not in seen for n in nodes):
+                return None                   # a call of f the analysis did not reach: not every call site can be given the obligation
+        if not good:
+            return None                       # no call site guards the call: the defect (if it is one) is the helper's
+        acc = ','.join(str(x) for x in sorted(d['accepted']))
+        for un2, g, e2, node2, shown, kk, kn, off in found:
+            key = '%s:%s:%s(%s)->%s' % (un2, g, f, shown, callee)
+            msg = ''
+            if off:
+                key += '<-' + ','.join(k for k, _ in off)
+                msg = ('%s() calls %s() where `%s` is not limited to the kinds the other call sites of %s() establish: %s() hands that size to %s%s, which handles only the sizes {%s} and otherwise '
+                       'stops with "internal error at <compiler source line>"; under the guards that dominate this call the type can still be %s%s -> the compiler reports an internal error instead '
+                       'of a located diagnostic or correct code' % (g, f, shown, f, f, callee, '' if callee == 'dispatch' else '()', acc, ', '.join('%s (%s)' % x for x in off),
+                                                                    '' if kn else ' (no kind guard dominates the call)'))
+            if key not in obs or (off and obs[key][0]):
+                obs[key] = (not off, msg, '%s:%d' % (un2, node2.line), {'accepted_sizes': sorted(d['accepted']), 'possible_kinds': sorted(kk), 'offending': off, 'helper': '%s:%s' % (un, f)})
+        return good
+
     def judge(un, f, e, node, callee, d, S, v, desc_path, q):
         base = q[:-6]
         kinds, known = _kinds_at(S, base, uni)
@@ -743,6 +842,11 @@ def r133(W, engs, rep):
             off = [('size', str(x)) for x in sorted(direct[1] - d['accepted'])]
         else:
             off = _offending(kinds, SZ, d['accepted'])
+            if off and callee != 'dispatch':
+                K = carry(un, f, e, d, callee, q, kinds)
+                if K is not None:
+                    kinds, known = K, True
+                    off = _offending(kinds, SZ, d['accepted'])
         key = '%s:%s:%s(%s)' % (un, f, callee, e.show(q))
         if off:
             key += '<-' + ','.join(k for k, _ in off)
